@@ -17,28 +17,28 @@ Local Open Scope N_scope.
 
 (* hash_script_data(redeemers, cost_models, datums) hashes the ledger's preimage over the witness set emitted for
    the same redeemers and datums (field 5 as written or A0, field 4 as written or nothing, canonical language
-   views of exactly the languages of the table), for ALL redeemers, datums and cost models outside
-     - helper_out_of_scope (no redeemers together with the legacy array container or with datums plus a non-empty
-       cost-model table: no valid transaction; the helper then follows the CDDL note A0 | datums | A0),
+   views of the languages in use: those of the table, none when there are no redeemers), for ALL redeemers (any
+   container form), datums and cost models outside
+     - helper_out_of_scope: neither redeemers nor datums (the ledger then has no script_data_hash to compare with),
      - the classes of the two repaired defects, needed only while the corresponding switch of ScriptData.v is `true`. *)
 Theorem C09_preimage_spec : forall (r : redeemers) (cm : costmdls) (d : option plutus_list),
-  helper_out_of_scope r cm d = false ->
+  helper_out_of_scope r d = false ->
   (set_len_counts_duplicates = true -> known_dup_definite d = false) ->
   (empty_datums_hashed = true -> known_empty_datums d = false) ->
   let fs := ws_fields (helper_witness_set r d) in
   script_data_preimage r cm d =
-  ledger_preimage (assoc_field 5 fs) (assoc_field 4 fs) (spec_views (cm_keys cm) cm).
+  ledger_preimage (assoc_field 5 fs) (assoc_field 4 fs) (spec_views (helper_langs r cm) cm).
 Proof. exact preimage_spec. Qed.
 Print Assumptions C09_preimage_spec.
 
 (* the same for both values of both switches (the statement that survives a repair or a regression of the code) *)
 Theorem C09_preimage_spec_gen : forall (count_dups empty_hashed : bool) (r : redeemers) (cm : costmdls) (d : option plutus_list),
-  helper_out_of_scope r cm d = false ->
+  helper_out_of_scope r d = false ->
   (count_dups = true -> known_dup_definite d = false) ->
   (empty_hashed = true -> known_empty_datums d = false) ->
   let fs := ws_fields (helper_witness_set r d) in
   script_data_preimage_gen count_dups empty_hashed r cm d =
-  ledger_preimage (assoc_field 5 fs) (assoc_field 4 fs) (spec_views (cm_keys cm) cm).
+  ledger_preimage (assoc_field 5 fs) (assoc_field 4 fs) (spec_views (helper_langs r cm) cm).
 Proof. exact preimage_spec_gen. Qed.
 Print Assumptions C09_preimage_spec_gen.
 
@@ -46,9 +46,9 @@ Print Assumptions C09_preimage_spec_gen.
    unrestricted statement is false (witnesses; they stay valid after the repair because they speak about `_gen true`) *)
 Theorem C09_preimage_refuted_dup_length :
   let fs := ws_fields (helper_witness_set one_redeemer (Some dup_witness_list)) in
-  helper_out_of_scope one_redeemer cm_empty (Some dup_witness_list) = false /\
+  helper_out_of_scope one_redeemer (Some dup_witness_list) = false /\
   script_data_preimage_gen true true one_redeemer cm_empty (Some dup_witness_list) <>
-  ledger_preimage (assoc_field 5 fs) (assoc_field 4 fs) (spec_views (cm_keys cm_empty) cm_empty) /\
+  ledger_preimage (assoc_field 5 fs) (assoc_field 4 fs) (spec_views (helper_langs one_redeemer cm_empty) cm_empty) /\
   serialize_as_set_gen true true dup_witness_list = [217; 1; 2; 130; 24; 42] /\
   assoc_field 4 fs = Some [217; 1; 2; 129; 24; 42].
 Proof. exact preimage_refuted_dup_length. Qed.
@@ -57,9 +57,9 @@ Print Assumptions C09_preimage_refuted_dup_length.
 Theorem C09_preimage_refuted_empty_datums :
   let d := Some pl_new in
   let fs := ws_fields (helper_witness_set one_redeemer d) in
-  helper_out_of_scope one_redeemer cm_empty d = false /\
+  helper_out_of_scope one_redeemer d = false /\
   script_data_preimage_gen false true one_redeemer cm_empty d <>
-  ledger_preimage (assoc_field 5 fs) (assoc_field 4 fs) (spec_views (cm_keys cm_empty) cm_empty) /\
+  ledger_preimage (assoc_field 5 fs) (assoc_field 4 fs) (spec_views (helper_langs one_redeemer cm_empty) cm_empty) /\
   assoc_field 4 fs = None.
 Proof. exact preimage_refuted_empty_datums. Qed.
 Print Assumptions C09_preimage_refuted_empty_datums.
@@ -258,7 +258,9 @@ Example C09_history_premises_satisfiable :
     assoc_field 4 (ws_fields (tx_witness_set t)) = Some [217; 1; 2; 159; 24; 42; 159; 1; 2; 255; 255].
 Proof. eexists _, _. repeat split; try reflexivity. vm_compute. discriminate. Qed.
 Example C09_helper_premises_satisfiable :
-  helper_out_of_scope one_redeemer ex_cm (Some (mk_plist [ex_datum_a; ex_datum_b] (Some true))) = false /\
+  helper_out_of_scope one_redeemer (Some (mk_plist [ex_datum_a; ex_datum_b] (Some true))) = false /\
+  (* datums without redeemers are inside the statement, whatever container form and table *)
+  helper_out_of_scope (mk_redeemers [] (Some CArray)) (Some (mk_plist [ex_datum_a] None)) = false /\
   known_dup_definite (Some (mk_plist [ex_datum_a; ex_datum_b] (Some true))) = false /\
   known_empty_datums (Some (mk_plist [ex_datum_a; ex_datum_b] (Some true))) = false /\
   (* the classes are narrow: duplicates in an indefinite-length list and a definite list without duplicates are inside the theorem *)
